@@ -245,6 +245,7 @@ func (l *lexer) run() {
 				l.col += w
 				l.ignore()
 				l.inVerbatim = false
+				continue // another construct may follow immediately
 			}
 		} else if strings.HasPrefix(l.input[l.pos:], "{% verbatim %}") { // tag
 			if l.pos > l.start {
@@ -255,6 +256,7 @@ func (l *lexer) run() {
 			l.pos += w
 			l.col += w
 			l.ignore()
+			continue // the block may be empty
 		}
 
 		if !l.inVerbatim {
